@@ -1110,6 +1110,11 @@ func generateMore(suite string, seed uint64, i int, r *rng, id string, g gp) *Ca
 				for a := 0; a < w1; a++ {
 					edges = append(edges, []string{"t" + strconv.Itoa(a), "b" + strconv.Itoa(r.intn(w2))})
 				}
+				if r.chance(1, 2) { // a hub: one node with 17..24 out-edges (per-call buffers chosen by degree)
+					for b, d := 0, r.rangeIn(17, 24); b < d && b < w2; b++ {
+						edges = append(edges, []string{"t0", "b" + strconv.Itoa(b)})
+					}
+				}
 				names = usedNames(edges)
 			}
 			if big { // a small random graph with a tail of 100..110 nodes hanging off one of its nodes
